@@ -19,7 +19,11 @@ def plan_ri(p):
                        and p._skipToFrameEnd[c] == p._frameSize - p._skipToChStart[c] - p._channelSizes[c] and p._skipToFrameEnd[c] >= 0,
                        trigger=lambda c: [p._channelSizes[c]])
             and forall(0, len(p._channelSizes) - 1, lambda c: p._skipToChStart[c + 1] == p._skipToChStart[c] + p._channelSizes[c],
-                       trigger=lambda c: [p._channelSizes[c]]))
+                       trigger=lambda c: [p._channelSizes[c]])
+            # channel starts increase strictly (a consequence of the two clauses above, every channel having at least one
+            # byte; stated so that no induction over the distance between two channels is needed)
+            and forall_n(lambda a, b: implies(0 <= a and a < b and b < len(p._channelSizes), p._skipToChStart[a] < p._skipToChStart[b]),
+                         trigger=lambda a, b: (p._skipToChStart[a], p._skipToChStart[b])))
 '''
 EVT = KOpt(KTup(Int, Int, Int, Int))
 
@@ -51,6 +55,49 @@ def register(reg):
                  ' + (0 if is_none(thePost) else thePost[1]) + (0 if is_none(thePre) else thePre[1]))',
                  'is_none(result) == (is_none(thePre) and is_none(thePost) and theFstep == 1)'],
         canaries=['is_none(result)', 'not is_none(result)'], crosscheck=False))
+    # ------------------------------------------------------------------ the read / skip plan of one frame for a channel selection
+    # For a strictly increasing list ch of channel indexes the events tile the frame from the first to the last selected
+    # channel: runs of selected channels are read, runs of unselected channels between them are skipped, each event carries
+    # exactly the bytes of its channels; a leading skip up to the first selected channel and a trailing skip to the end of
+    # the frame complete it.  `sel` is the ghost membership vector of the selection.
+    EV4 = KTup(Str, Int, Int, Int)
+    CHS = 'theChIndexS'
+    NCH = 'len(self._channelSizes)'
+    SELREQ = ['len(%s) >= 1' % CHS, 'len(sel) == ' + NCH,
+              'forall(0, len(%s), lambda k: 0 <= %s[k] and %s[k] < %s and sel[%s[k]] == 1, trigger=lambda k: [%s[k]])' % (CHS, CHS, CHS, NCH, CHS, CHS),
+              'forall(0, len(%s) - 1, lambda k: %s[k] < %s[k + 1] and forall(%s[k] + 1, %s[k + 1], lambda c: sel[c] == 0), trigger=lambda k: [%s[k]])'
+              % (CHS, CHS, CHS, CHS, CHS, CHS)]
+    BYTES_OF = 'self._skipToChStart[{b}] + self._channelSizes[{b}] - self._skipToChStart[{a}]'
+    EVOK = ('E[i][2] <= E[i][3] and 0 <= E[i][2] and E[i][3] < %s and E[i][1] == %s and (E[i][0] == "read" or E[i][0] == "skip")'
+            ' and forall(E[i][2], E[i][3] + 1, lambda c: sel[c] == (1 if E[i][0] == "read" else 0))'
+            % (NCH, BYTES_OF.format(a='E[i][2]', b='E[i][3]')))
+    reg.add(Contract(
+        TP, 'FrameSetPlan._retFrameEvents', {'self': PLAN, CHS: KView(Int)}, ghost={'sel': KView(Int)}, requires=RI + SELREQ,
+        returns=KTup(KOpt(EV4), KView(EV4), KOpt(EV4)),
+        ensures=['is_none(result[0]) == (%s[0] == 0)' % CHS,
+                 'implies(not is_none(result[0]), result[0][0] == "skip" and result[0][1] == self._skipToChStart[%s[0]] and result[0][2] == 0'
+                 ' and result[0][3] == %s[0] - 1)' % (CHS, CHS),
+                 'is_none(result[2]) == (self._skipToFrameEnd[%s[len(%s) - 1]] == 0)' % (CHS, CHS),
+                 'implies(not is_none(result[2]), result[2][0] == "skip" and result[2][1] == self._skipToFrameEnd[%s[len(%s) - 1]]'
+                 ' and result[2][2] == %s[len(%s) - 1] + 1 and result[2][3] == %s - 1)' % (CHS, CHS, CHS, CHS, NCH),
+                 'len(result[1]) >= 1', 'result[1][0][2] == %s[0]' % CHS, 'result[1][len(result[1]) - 1][3] == %s[len(%s) - 1]' % (CHS, CHS),
+                 'result[1][0][0] == "read"', 'result[1][len(result[1]) - 1][0] == "read"',
+                 ('forall(0, len(result[1]), lambda i: %s)' % EVOK).replace('E[', 'result[1]['),
+                 'forall(0, len(result[1]) - 1, lambda i: result[1][i + 1][2] == result[1][i][3] + 1 and result[1][i + 1][0] != result[1][i][0])'],
+        loops=[Loop('for chIdx in theChIndexS', index='k', invariants=[
+            'chStart <= chStop + 1', '0 <= chStart and chStop < ' + NCH,
+            'implies(k == 0, chStop == %s[0] - 1 and chStart == %s[0] and siz == 0 and len(myFevts) == 0)' % (CHS, CHS),
+            'implies(k >= 1, chStop == %s[k - 1] and chStart <= chStop and siz == %s and forall(chStart, chStop + 1, lambda c: sel[c] == 1))'
+            % (CHS, BYTES_OF.format(a='chStart', b='chStop')),
+            'implies(len(myFevts) == 0, chStart == %s[0])' % CHS,
+            'implies(len(myFevts) >= 1, myFevts[0][2] == %s[0] and myFevts[0][0] == "read" and myFevts[len(myFevts) - 1][3] == chStart - 1'
+            ' and myFevts[len(myFevts) - 1][0] == "skip" and k >= 1)' % CHS,
+            ('forall(0, len(myFevts), lambda i: %s)' % EVOK).replace('E[', 'myFevts['),
+            'forall(0, len(myFevts) - 1, lambda i: myFevts[i + 1][2] == myFevts[i][3] + 1 and myFevts[i + 1][0] != myFevts[i][0])',
+            'is_none(myPre) == (%s[0] == 0)' % CHS,
+            'implies(not is_none(myPre), myPre[0] == "skip" and myPre[1] == self._skipToChStart[%s[0]] and myPre[2] == 0 and myPre[3] == %s[0] - 1)' % (CHS, CHS),
+        ], kinds={'myFevts': KView(EV4)})],
+        canaries=['len(result[1]) == 1', 'is_none(result[0])'], crosscheck=False, timeout=40))
     LPK = KRec('LogPass')
     reg.add(Contract(LP, 'LogPass._sliceFromList', {'self': LPK, 'theL': KView(Int)},
                      # the frame offsets inside one record selected by a stepped slice are an arithmetic progression
